@@ -40,11 +40,15 @@ def main():
         },
         "engines": [
             {"name": "vh", "path": "/verif/harness/vh", "serves_properties": BUILT,
-             "kind_free_text": "Rust binary: proptest TestRunner over an entropy strategy with custom shrinking, arbitrary::Unstructured decoders, reference models/oracles per property, CLI driver, crash-isolating workers, evidence writer"},
+             "kind_free_text": "Rust binary: proptest TestRunner over an entropy strategy with custom shrinking, arbitrary::Unstructured decoders, reference models/oracles per property, CLI driver (E2), crash-isolating worker processes (E3), configuration matrix with per-case dump digests (E5), evidence writer"},
+            {"name": "fuzz", "path": "/verif/fuzz", "serves_properties": ["C01", "C04", "C05", "C07", "C08", "C09", "C13", "C16", "C20", "C21"],
+             "kind_free_text": "cargo-fuzz / libFuzzer + AddressSanitizer targets (nightly) that feed fuzzer bytes as entropy into the same sub-check closures (vh::fuzz::one); run by ./fuzz.sh in the thorough tier"},
+            {"name": "seeded", "path": "/verif/seeded", "serves_properties": BUILT,
+             "kind_free_text": "38 independently seeded defects (patch + demonstration + meta.json) used to measure sensitivity; tools/seeded_eval.sh evaluates one against a scratch copy"},
         ],
         "checks": checks,
         "not_applicable": na,
-        "notes": "All checks: ./run.sh <id> <tier>; exit 0 held, 1 violation, 2 inconclusive. Known findings in /verif/known_findings.json. See DESIGN.md.",
+        "notes": "All checks: ./run.sh <id> <tier>; exit 0 held, 1 violation (VIOLATION line), 2 inconclusive (build failure, generator regression, worker hang/timeout). Known findings and repaired defects: /verif/known_findings.json (status known/fixed); committed regression inputs: /verif/replays/<id>/. DESIGN.md section 9 records the engine as built, false alarms corrected, repaired and open findings, and which checks catch which seeded change.",
     }
     json.dump(m, open(os.path.join(ROOT, "MANIFEST.json"), "w"), indent=1)
     print("claimed", len(checks), "not_applicable", len(na))
